@@ -138,7 +138,7 @@ def build(q, wd):
     if rc != 0:
         raise Inconclusive('gcc native_rt failed:\n' + out[-2000:])
     nrtti = [] if q.rtti else ['-fno-rtti', '-DBOOST_NO_RTTI']
-    cmd = ['g++'] + NATIVE_FLAGS + nd + nrtti + inc + repo_inc + q.dflags() + [src, rt_o, '-o', exe_n]
+    cmd = ['g++'] + NATIVE_FLAGS + nd + nrtti + inc + repo_inc + q.dflags() + [x for x in q.extra_clang if x.startswith('-D') and 'GLIBCXX' not in x] + [src, rt_o, '-o', exe_n]
     rc, out, dt = sh(cmd, timeout=600)
     info['native_build_s'] = round(dt, 2)
     if rc != 0:
